@@ -87,14 +87,14 @@ def exec : List Sexp → String
       | some t =>
         let s := printTy t
         let ok := match parseType env (syms s) with
-          | some t2 => Ty.beq t2 t && printTy t2 == s
+          | some t2 => Ty.eqGo t2 t && Ty.eqGo t t2 && printTy t2 == s
           | none => false
         strHex s ++ " rt=" ++ boolStr ok
     | _, _, _ => "bad-op"
   | [.atom "rt-api", ctor] =>
     -- a type built through the Go constructors: NewArrayType / NewHashType / NewCollectionType / NewStringType
     let env := mkEnv []
-    let name (e : Sexp) : Option Ty := (strArg e).bind fun n => resolveName n
+    let name (e : Sexp) : Option Ty := (strArg e).bind fun n => resolveName env n
     let built : Option Ty :=
       match ctor with
       | .list [.atom "array", e, lo, hi] => do
@@ -115,7 +115,7 @@ def exec : List Sexp → String
     | some t =>
       let s := printTy t
       let ok := match parseType env (syms s) with
-        | some t2 => Ty.beq t2 t && printTy t2 == s
+        | some t2 => Ty.eqGo t2 t && Ty.eqGo t t2 && printTy t2 == s
         | none => false
       strHex s ++ " rt=" ++ boolStr ok
   | [.atom "rt-int", n] =>
